@@ -691,6 +691,11 @@ func compareBody(mb *mBody, ob *hclsyntax.Body, otoks []tk, path string) (string
 }
 
 func checkB(c CaseB) *core.Violation {
+	k := newKeeper()
+	return k.finish(checkB1(c, k))
+}
+
+func checkB1(c CaseB, k *keeper) *core.Violation {
 	src := []byte(c.Src)
 	parsed, pd := hclsyntax.ParseConfig(src, "", startPos)
 	if pd.HasErrors() {
@@ -707,7 +712,7 @@ func checkB(c CaseB) *core.Violation {
 	// files that the writer does not even load losslessly are C20(a)'s findings;
 	// edits are checked on the others
 	{
-		lt, _ := lex(f.BuildTokens(nil).Bytes())
+		lt, _ := lex(k.keep("Tokens.Bytes", f.BuildTokens(nil).Bytes()))
 		if sameToks(toks, lt) >= 0 {
 			return nil
 		}
@@ -728,9 +733,22 @@ func checkB(c CaseB) *core.Violation {
 	ap := &applied{ops: map[string]bool{}}
 	for i := range c.Edits {
 		md.apply(&c.Edits[i], f.Body(), ap)
+		// the file is serialised after every edit, through alternating entry points,
+		// and every result is retained (File.Bytes formats the tree in place, which
+		// changes nothing the model looks at)
+		switch (i + len(c.Src)) % 4 {
+		case 0:
+			k.keep("File.Bytes", f.Bytes())
+		case 1:
+			k.keep("Tokens.Bytes", f.BuildTokens(nil).Bytes())
+		case 2:
+			k.keep("Format", hclwrite.Format(k.keep("Body.BuildTokens.Bytes", f.Body().BuildTokens(nil).Bytes())))
+		}
 	}
 	core.SetExtra("c20b_cases_removing_first_item_behind_brace_comment_run", atomic.LoadInt64(&removedBehindBraceRun))
-	out := f.Bytes()
+	out := k.keep("File.Bytes", f.Bytes())
+	// one more serialisation of different content before the output is looked at
+	k.keep("Format", hclwrite.Format(src))
 	show := func() string {
 		return fmt.Sprintf("edits: %s\noutput:\n%s\nsource:\n%s", clip(fmt.Sprintf("%+v", c.Edits), 1500), clip(string(out), 2500), clip(c.Src, 2500))
 	}
@@ -850,6 +868,9 @@ func classifyB(c CaseB) core.Class {
 		}
 	}
 	cl.Labels = append(cl.Labels, fmt.Sprintf("nedits:%d", len(c.Edits)))
+	for i := range c.Edits {
+		cl.Labels = append(cl.Labels, "results:after-edit-via-"+[]string{"File.Bytes", "Tokens.Bytes", "Format+Body.BuildTokens", "none"}[(i+len(c.Src))%4])
+	}
 	var ol []string
 	for o := range ops {
 		ol = append(ol, o)
@@ -866,7 +887,7 @@ func classifyB(c CaseB) core.Class {
 func TestC20b(t *testing.T) {
 	core.Run(t, core.Spec[CaseB]{
 		Property: "C20", Sub: "b",
-		Rule: "a generated source file (as in C20a) and 1-5 edits, each on the root body or a nested body reached through 0-2 block indices: SetAttributeValue (primitive/list/map/set/any values, arbitrary Unicode strings, numbers at and beyond the int64/uint64 boundaries, huge, tiny, non-terminating fractions, -0, also nested), SetAttributeTraversal (incl. such numbers as index keys), SetAttributeRaw, RemoveAttribute (existing or missing), AppendNewBlock (0-2 labels), RemoveBlock, removal of the first item of a body, SetLabels; the same edits update a model built from hclsyntax's parse. Oracle: File.Bytes() parses; every body shows the model's items in order; untouched attributes and block headers keep their tokens; set attributes read back as the value / traversal / tokens given; labels are the model's; comments outside removed or replaced regions are all still there in order and no comment appears. Non-trivial: heredoc, comment or template in the file, or >=2 edits; distinct = (origin, heredoc, comment, template, #edits<=3, first two op kinds)",
+		Rule: "a generated source file (as in C20a) and 1-5 edits, each on the root body or a nested body reached through 0-2 block indices: SetAttributeValue (primitive/list/map/set/any values, arbitrary Unicode strings, numbers at and beyond the int64/uint64 boundaries, huge, tiny, non-terminating fractions, -0, also nested), SetAttributeTraversal (incl. such numbers as index keys), SetAttributeRaw, RemoveAttribute (existing or missing), AppendNewBlock (0-2 labels), RemoveBlock, removal of the first item of a body, SetLabels; the same edits update a model built from hclsyntax's parse. Oracle: the file is serialised after every edit through alternating entry points and every returned slice must stay what it was; the final File.Bytes() parses; every body shows the model's items in order; untouched attributes and block headers keep their tokens; set attributes read back as the value / traversal / tokens given; labels are the model's; comments outside removed or replaced regions are all still there in order and no comment appears. Non-trivial: heredoc, comment or template in the file, or >=2 edits; distinct = (origin, heredoc, comment, template, #edits<=3, first two op kinds)",
 		Gen:  genB, Check: checkB, Classify: classifyB,
 		Assumptions: []string{
 			"hclsyntax's parse of the source and of the output is the trusted observer of structure",
